@@ -89,6 +89,43 @@ fn constant_rich() -> Vec<String> {
         v.push(format!("[1].map(i, {}.filter(k, 10 / (int(k) * x) >= 0))", m));
         v.push(format!("{} == {{'1': 10 / x, 'p': int(y)}}", m2));
     }
+    // nesting: every level of a call, macro, list or parenthesis is a level of the serialized tree.
+    // All alternations of two constructs at every depth the parser accepts, alone and inside an
+    // f-string hole
+    let nest: [(&str, &str); 9] = [
+        ("size(", ")"),
+        ("[", "]"),
+        ("[1].map(i, ", ")"),
+        ("{\"k\": ", "}"),
+        ("x.f(", ")"),
+        ("(", ")"),
+        ("coalesce(", ")"),
+        ("x ? 1 : (", ")"),
+        ("match x { case int: ", ", case _: 0 }"),
+    ];
+    for (ai, a) in nest.iter().enumerate() {
+        for (bi, b) in nest.iter().enumerate() {
+            for d in 1usize..=32 {
+                if ai != bi && d == 1 {
+                    continue;
+                }
+                for leaf in ["x", "1"] {
+                    let mut open = String::new();
+                    let mut close = String::new();
+                    for l in 0..d {
+                        let c = if l % 2 == 0 { a } else { b };
+                        open.push_str(c.0);
+                        close.insert_str(0, c.1);
+                    }
+                    let e = format!("{}{}{}", open, leaf, close);
+                    if d % 4 == 3 {
+                        v.push(format!("f'{{{}}}'", e));
+                    }
+                    v.push(e);
+                }
+            }
+        }
+    }
     v.sort();
     v.dedup();
     v
@@ -155,6 +192,15 @@ impl Space {
                 Ok(Err(e)) => {
                     acc.class("deserialize-error");
                     let what = classify_constants(&bc_text);
+                    if e.contains("recursion limit") {
+                        acc.violation(
+                            &format!("{} deserialization-fails reader's-recursion-limit [code blocks nested {} deep, values nested {} deep]", fmt, block_depth(&bc_text), value_depth(&bc_text)),
+                            json!({"src": src, "format": fmt}),
+                            "the program reads back".into(),
+                            e,
+                        );
+                        continue;
+                    }
                     acc.violation(&format!("{} deserialization-fails [{}]", fmt, what), case(), "the program reads back".into(), e);
                     continue;
                 }
@@ -250,6 +296,62 @@ impl Space {
     }
 }
 
+/// how deep code blocks are nested in a bytecode listing
+fn block_depth(bc: &str) -> usize {
+    let (mut d, mut m) = (0usize, 0usize);
+    let mut rest = bc;
+    loop {
+        let o = rest.find("CelByteCode { inner: [");
+        let c = rest.find("] }");
+        match (o, c) {
+            (Some(o), Some(c)) if o < c => {
+                d += 1;
+                m = m.max(d);
+                rest = &rest[o + 22..];
+            }
+            (_, Some(c)) => {
+                d = d.saturating_sub(1);
+                rest = &rest[c + 3..];
+            }
+            (Some(o), None) => {
+                d += 1;
+                m = m.max(d);
+                rest = &rest[o + 22..];
+            }
+            (None, None) => break,
+        }
+    }
+    m
+}
+
+/// how deep list and map constants are nested in a bytecode listing
+fn value_depth(bc: &str) -> usize {
+    let (mut d, mut m) = (0usize, 0usize);
+    let b = bc.as_bytes();
+    let mut i = 0;
+    let mut stack: Vec<bool> = Vec::new();
+    while i < b.len() {
+        if bc[i..].starts_with("List([") || bc[i..].starts_with("Map({") {
+            d += 1;
+            m = m.max(d);
+            stack.push(true);
+            i += 5;
+            continue;
+        }
+        match b[i] {
+            b'(' | b'[' | b'{' => stack.push(false),
+            b')' | b']' | b'}' => {
+                if stack.pop() == Some(true) {
+                    d = d.saturating_sub(1);
+                }
+            }
+            _ => {}
+        }
+        i += 1;
+    }
+    m
+}
+
 /// which kinds of constants the bytecode holds (site-level signature of a failure)
 fn classify_constants(bc: &str) -> String {
     let mut k = Vec::new();
@@ -285,7 +387,7 @@ pub fn run(t: Tier) -> i32 {
     let mut rep = Report::new(ID, t, "exploration");
     let sp = Space::new(t);
     rep.rule = format!(
-        "programs: {} programs = the C10 program set (C09's templates in every literal/variable mask, logic trees, matches, f-strings, macros, chains: every ByteCode variant and nested code blocks) plus {} constant-rich programs (every serialisable value variant with boundary payloads - int/uint extremes, +-0.0, +-inf, NaN, subnormal, strings with quotes/NUL/non-BMP, all 256 bytes, nested lists and maps, types, timestamps and durations at millisecond resolution incl. negative and extreme - and every error constant the folder produces, each alone, in a list, a map, a comparison, a macro, a ternary and a coalesce; folded maps of 2 and 12 keys under filter/map forms whose body fails with a different class on different keys) x {{serde_json, bincode}}: serialization and deserialization succeed, source and parameter set are equal, a second round trip has the same bytes, and original and round-tripped program give the same value or the same error kind under 5 bindings of their variables (1, 'a', true, 0, unbound); a program holding a map constant is read back 8 times from the same bytes (every reading builds a new map) and each reading is compared. Non-trivial = every compiled program; distinct by source",
+        "programs: {} programs = the C10 program set (C09's templates in every literal/variable mask, logic trees, matches, f-strings, macros, chains: every ByteCode variant and nested code blocks) plus {} constant-rich programs (every serialisable value variant with boundary payloads - int/uint extremes, +-0.0, +-inf, NaN, subnormal, strings with quotes/NUL/non-BMP, all 256 bytes, nested lists and maps, types, timestamps and durations at millisecond resolution incl. negative and extreme - and every error constant the folder produces, each alone, in a list, a map, a comparison, a macro, a ternary and a coalesce; folded maps of 2 and 12 keys under filter/map forms whose body fails with a different class on different keys; every alternation of two of 9 nesting constructs - calls, method calls, macros, lists, maps, parentheses, coalesce, ?:, match arms - at every depth 1..32 with a variable and with a constant at the bottom, every fourth depth also inside an f-string hole: as deep as the parser accepts) x {{serde_json, bincode}}: serialization and deserialization succeed, source and parameter set are equal, a second round trip has the same bytes, and original and round-tripped program give the same value or the same error kind under 5 bindings of their variables (1, 'a', true, 0, unbound); a program holding a map constant is read back 8 times from the same bytes (every reading builds a new map) and each reading is compared. Non-trivial = every compiled program; distinct by source",
         sp.srcs.len(),
         constant_rich().len()
     );
